@@ -335,7 +335,7 @@ func (w *world) routes(o *c.Out) {
 	walked := map[string]bool{}
 	emit := func(method, pattern, impl string) {
 		js, _ := json.Marshal(map[string]string{"m": method, "p": pattern})
-		o.Case(fmt.Sprintf("route m=%s p=%s pat=%s case=x%s", method, c.X(pattern), pattern, hex.EncodeToString(js)), impl)
+		o.Case(fmt.Sprintf("route v=2 m=%s p=%s pat=%s case=x%s", method, c.X(pattern), pattern, hex.EncodeToString(js)), impl)
 	}
 	for _, r := range seen {
 		walked[r.method+" "+r.pattern] = true
@@ -488,5 +488,5 @@ func (w *world) nonceCase(o *c.Out, k *NonceCase) {
 		impl = fmt.Sprintf("once:VIOLATED accepted=%d other=%d", accepted, other)
 	}
 	js, _ := json.Marshal(k)
-	o.Case(fmt.Sprintf("nonce k=%d case=x%s", k.K, hex.EncodeToString(js)), impl+"\tonce:ok")
+	o.Case(fmt.Sprintf("nonce v=2 k=%d case=x%s", k.K, hex.EncodeToString(js)), impl+"\tonce:ok")
 }
